@@ -26,7 +26,6 @@ RN_RULES = [
 UNIT = dict(
     name="read_next",
     props=["C02", "C15", "C09", "C01"],
-    implicit_props=["C01"],
     features=["allocator_api"],
     uses=["std::collections::HashMap", "vstd::std_specs::hash::*"],
     prelude=["core_types.rs", "str_ext.rs", "hashmap_ext.rs", "engine.rs"],
@@ -62,6 +61,9 @@ UNIT = dict(
                  ("C01,C02:chain_never_modified_by_reads", "final(info_arc).chain == old(info_arc).chain"),
                  ("C02,C12:marks_only_blocks_entirely_before_cursor", "marks_ok(final(self).globals.ckpt_calls@, old(self).globals.ckpt_calls@.len() as int, final(info_arc).chain@, final(info_arc).cur_block_idx as int)"),
                  ("C01:cursor_stays_well_formed", "wf_col(*final(info_arc))"),
+                 ("C01:consuming_read_in_sealed_chain_moves_cursor_by_exactly_the_returned_entry",
+                  "(checkpoint && old(info_arc).hydrated_from_index && sealed_pos(*old(info_arc)) < sum_used(old(info_arc).chain@, old(info_arc).chain.len() as int)) ==> (ret matches Ok(Some(e)) ==> sealed_pos(*final(info_arc)) == sealed_pos(*old(info_arc)) + PREFIX_META_SIZE + e.data.len())"),
+                 ("C01:read_without_delivery_keeps_sealed_position", "(old(info_arc).hydrated_from_index && !(ret matches Ok(Some(_)))) ==> sealed_pos(*final(info_arc)) == sealed_pos(*old(info_arc))"),
                  ("C09:persisted_tail_position_never_behind_memory", "persists_ok(final(self).read_offset_index.log@, old(self).read_offset_index.log@.len() as int, *old(info_arc))"),
                  ("C09:persist_log_only_grows", "old(self).read_offset_index.log@.len() <= final(self).read_offset_index.log@.len()"),
              ],
@@ -80,6 +82,7 @@ UNIT = dict(
                  ("", "self.read_consistency == old(self).read_consistency"),
                  ("", "!checkpoint ==> self.read_offset_index == old(self).read_offset_index"),
                  ("", "(!checkpoint && old(info_arc).hydrated_from_index) ==> sealed_pos(*info_arc) == sealed_pos(*old(info_arc)) && info_arc.tail_block_id == old(info_arc).tail_block_id && info_arc.tail_offset == old(info_arc).tail_offset && info_arc.reads_since_persist == old(info_arc).reads_since_persist"),
+                 ("C01:advancing_past_a_finished_block_keeps_the_position", "old(info_arc).hydrated_from_index ==> sealed_pos(*info_arc) == sealed_pos(*old(info_arc))"),
                  ("", "marks_ok(self.globals.ckpt_calls@, old(self).globals.ckpt_calls@.len() as int, info_arc.chain@, info_arc.cur_block_idx as int)"),
                  ("", "old(self).globals.ckpt_calls@.len() <= self.globals.ckpt_calls@.len()"),
                  ("", "persists_ok(self.read_offset_index.log@, old(self).read_offset_index.log@.len() as int, *old(info_arc))"),
